@@ -1,2 +1,19 @@
 Definition earn_types : list ttype := [AIRDROP; HARDFORK; INCOME; INTEREST; MINING; STAKING; WAGES].
 Definition is_earn_type (t : ttype) : bool := ttype_in t earn_types.
+Definition ttype_value (t : ttype) : str :=
+  match t with
+  | AIRDROP => [97; 105; 114; 100; 114; 111; 112]
+  | BUY => [98; 117; 121]
+  | DONATE => [100; 111; 110; 97; 116; 101]
+  | FEE => [102; 101; 101]
+  | GIFT => [103; 105; 102; 116]
+  | HARDFORK => [104; 97; 114; 100; 102; 111; 114; 107]
+  | INCOME => [105; 110; 99; 111; 109; 101]
+  | INTEREST => [105; 110; 116; 101; 114; 101; 115; 116]
+  | LOST => [108; 111; 115; 116]
+  | MINING => [109; 105; 110; 105; 110; 103]
+  | MOVE => [109; 111; 118; 101]
+  | SELL => [115; 101; 108; 108]
+  | STAKING => [115; 116; 97; 107; 105; 110; 103]
+  | WAGES => [119; 97; 103; 101; 115]
+  end.
